@@ -145,7 +145,7 @@ func CheckC17(env *core.Env, rep *core.Report) *core.Result {
 			}
 		}
 	}
-	var n int64
+	var n, sampled int64
 	core.Parallel(len(sel), 16, func(i int) {
 		c := sel[i]
 		root := env.Sub("imp")
@@ -195,7 +195,7 @@ func CheckC17(env *core.Env, rep *core.Report) *core.Result {
 		if g.Exit != 0 || g.TimedOut {
 			add("pipeline-broken-by-import", "graph p failed: "+lastLine(g.Stderr))
 		}
-		if i%211 == 0 {
+		if i%211 == 0 || atomic.AddInt64(&sampled, 1) <= 3 {
 			e.samples.Add(map[string]interface{}{"kind": "imports", "imports": c.Imports, "health": c.Health, "expected_tasks": want, "fails": c.Fails})
 		}
 	})
